@@ -342,8 +342,67 @@ func c02Types(c *Ctx, cg *c02Gen, nrand int) (descs []string, types []reflect.Ty
 }
 
 // c02GenDec: typed decoding of documents (valid, mutated, foreign, duplicate keys, two documents into one variable).
+// c02PriorCases: destinations that are REUSED holders — an interface (the root, a struct field, a map value, a slice
+// or array element, behind a pointer) that currently holds a typed nil pointer (*T)(nil), a pointer to a nil pointer,
+// or a non-nil pointer, for several T — receiving documents of every tag, whole and truncated.
+func c02PriorCases(c *Ctx, cg *c02Gen) {
+	g := cg.g
+	inner := []string{"ptr<i32>", "ptr<str>", "ptr<st<>{58/e////i32}>", "ptr<sl<i32>>", "ptr<map<i32>>", "ptr<ptr<i32>>", "ptr<any>", "ptr<sl<i8>>", "ptr<f64>"}
+	k := 0
+	for _, in := range inner {
+		priors := []string{"!" + in + "!~"}
+		if in == "ptr<ptr<i32>>" {
+			priors = append(priors, "!"+in+"!&~", "!"+in+"!&&00000005")
+		}
+		if in == "ptr<i32>" {
+			priors = append(priors, "!"+in+"!&00000005")
+		}
+		for _, pv := range priors {
+			holders := [][2]string{
+				{"any", pv}, {"ptr<any>", "&" + pv},
+				{"st<>{41/e////any|42/e////i32}", "(" + pv + ";00000007)"},
+				{"map<any>", "{6b:" + pv + "}"}, {"sl<any>", "[" + pv + "," + pv + "]"}, {"ar<2;any>", "[" + pv + "," + pv + "]"},
+				{"st<>{41/e////sl<any>}", "([" + pv + "])"},
+			}
+			for tag := byte(1); tag <= 12; tag++ {
+				if !c.Thorough() && k%2 == 1 && tag != byte(1+k%12) && len(priors) == 1 && in != "ptr<i32>" {
+					k++
+					continue // quick tier: half of the (type, tag) pairs per run
+				}
+				k++
+				tr := g.tree(tag, 1)
+				for hi, h := range holders {
+					var nd *nbtNode
+					switch {
+					case hi <= 1:
+						nd = tr
+					case hi == 2:
+						nd = &nbtNode{tag: 10, keys: [][]byte{[]byte("A"), []byte("B")}, vals: []*nbtNode{tr, {tag: 3, num: 9}}}
+					case hi == 3:
+						nd = &nbtNode{tag: 10, keys: [][]byte{[]byte("k"), []byte("n")}, vals: []*nbtNode{tr, g.tree(tag, 0)}}
+					case hi <= 5:
+						nd = &nbtNode{tag: 9, elem: tag, list: []*nbtNode{tr, g.tree(tag, 0)}}
+					default:
+						nd = &nbtNode{tag: 10, keys: [][]byte{[]byte("A")}, vals: []*nbtNode{{tag: 9, elem: tag, list: []*nbtNode{tr}}}}
+					}
+					format := []string{"net", "file"}[(k+hi)%2]
+					doc, _ := nd.doc(format, nil)
+					c02DecInto(c, h[0], format, h[1], doc)
+					if (k+hi)%3 == 0 && len(doc) > 2 {
+						c02DecInto(c, h[0], format, h[1], doc[:1+c.R.Intn(len(doc)-1)])
+					}
+				}
+			}
+			// a bare End where a value should be
+			c02DecInto(c, "any", "net", pv, []byte{0})
+			c02DecInto(c, "st<>{41/e////any|42/e////i32}", "net", "("+pv+";00000007)", []byte{10, 0, 0, 1, 'A', 0})
+		}
+	}
+}
+
 func c02GenDec(c *Ctx, cg *c02Gen, descs []string, types []reflect.Type, rounds, rounds2 int) {
 	g := cg.g
+	defer c02PriorCases(c, cg)
 	// --- typed decoding of documents: encodings of values of the type (and mutations), and foreign documents ---
 	emitted := 0
 	for round := 0; round < rounds; round++ {
